@@ -128,7 +128,7 @@ func c14(c *Ctx) {
 	if f := c.mustFn(r, storeT+"readValueAt"); f != nil {
 		bar := anyEdge(
 			whenCond(true, func(a string) bool { return hasFieldSuffix(a, "embeddedValues") }),
-			whenCond(false, func(a string) bool { return strings.Contains(a, "decodeOffset#0") && strings.Contains(a, "const:0") && strings.Contains(a, " == ") }),
+			whenCond(false, func(a string) bool { return strings.Contains(a, "decodeOffset(") && strings.Contains(a, ")#0") && strings.Contains(a, "const:0") && strings.Contains(a, " == ") }),
 			whenCond(false, func(a string) bool { return strings.HasPrefix(a, "(const:0 < len(") }),
 		)
 		q := &pathQ{fn: f, fromEntry: true, to: callTo(storeT + "fetchVLog"), barrier: bar}
